@@ -153,6 +153,13 @@ def declare(w, with_send=True):
         gw = st.ghost.get("$gateway")
         if gw is None:
             raise Unsupported("callback call outside a function that declares its gateway")
+        if ex.frame is not None and ex.frame.qualname in ("Channel.setcallback", "ChannelFactory._local_receive"):
+            # items reach a callback only while the gateway's receive lock is held: the receiver thread holds it around every
+            # handler, so no frame can be handled while setcallback replays the backlog (ordering of old vs. new items)
+            from pyvc.contracts import HeapView
+
+            lock = st.heap.get(gw, "_receivelock")
+            ex.oblige(st, "lock", "item-callback-under-_receivelock", HeapView(st.heap, st.held).holds(lock.v))
         for s2, raised in ((st.fork(), None), (st.fork(), "Exception"), (st.fork(), "BaseException")):
             fn_ = s2.heap.get(gw, "$call_fn")
             ar_ = s2.heap.get(gw, "$call_arg")
@@ -465,6 +472,8 @@ def declare_channel(w):
                               Case("truncated-payload", "raise", "EOFError", when=lambda a, h: z3.Not(has_cb(h, a.self, a.id)), post=tables_shrink)],
                        props=["C02", "C07", "C10"]))
     c.ghost_init = GH(lambda a, h: gw_of(h, a.self))
+    c.held_on_entry = lambda a, h: [G(h, gw_of(h, a.self), "_receivelock")]     # called by the receiver thread inside `with self._receivelock`
+    c.requires = (lambda old: lambda a, h: old(a, h) + [("receivelock-held", h.holds(G(h, gw_of(h, a.self), "_receivelock")))])(c.requires)
     w.attr_hooks[("BaseGateway", "_geterrortext")] = lambda ex, st, recv: SV(FUNCT, ExternD("geterrortext"))
     w.externals["geterrortext"] = lambda ex, args, kwargs, st, sink, node: iter([(st, core.fresh(STR, "errortext"))])
     return w
@@ -684,9 +693,10 @@ def declare_receiver(w):
                 z3.Implies(z3.And(K >= 0, K < slen(content), K < nofn, z3.Not(z3.Contains(z3.SubSeq(content, 0, K + 1), z3.Unit(ENDM)))),
                            z3.And(ar2[slen(ar0) + K] == content[K], fn2[slen(fn0) + K] == a.callback)),
                 z3.PrefixOf(fn0, fn2), z3.PrefixOf(ar0, ar2), slen(fn2) == slen(ar2),
-                # registered for later items only if the channel is still open and no ENDMARKER was queued
+                # registered for later items exactly if the channel is still open and no ENDMARKER was queued - and only after the whole backlog went out
                 z3.Implies(has_cb(h2, f_, i), z3.And(cb_fn(h2, f_, i) == a.callback, cb_end(h2, f_, i) == a.endmarker,
-                                                     z3.Not(z3.Contains(content, z3.Unit(ENDM))), nofn == slen(content)))]
+                                                     z3.Not(z3.Contains(content, z3.Unit(ENDM))), nofn == slen(content))),
+                z3.Implies(z3.And(z3.Not(z3.Contains(content, z3.Unit(ENDM))), z3.Not(C(h, c, "_closed")), z3.Not(ev_set(h, C(h, c, "_receiveclosed")))), has_cb(h2, f_, i))]
 
     def SCMOD(a, h):
         c = a.self
@@ -728,7 +738,7 @@ def declare_receiver(w):
     w.add_loop(LoopSpec(f"{GB}:Channel.setcallback", 0, invariant=sc_inv,
                         variant=lambda L: slen(qc(L.h, C(L.old, L.inp("self"), "_items"))),
                         havoc_cells=lambda L: [("Queue", C(L.old, L.inp("self"), "_items"), "$content"), ("BaseGateway", C(L.old, L.inp("self"), "gateway"), "$call_fn"),
-                                               ("BaseGateway", C(L.old, L.inp("self"), "gateway"), "$call_arg")], props=["C10"]))
+                                               ("BaseGateway", C(L.old, L.inp("self"), "gateway"), "$call_arg"), ("ChannelFactory", fac(L.old, L.inp("self")), "_callbacks")], props=["C10"]))
     return w
 
 
@@ -977,6 +987,8 @@ def declare_receiver_thread(w):
                                        Case("cannot-send", "raise", "OSError"), Case("pool-shutting-down", "raise", "ValueError"), _interrupt()]),
                        props=["C02", "C03", "C04", "C07"]))
     c.ghost_init = GH(lambda a, h: a.gateway)
+    c.held_on_entry = lambda a, h: [G(h, a.gateway, "_receivelock")]     # handlers run inside `with self._receivelock` of the receiver thread
+    c.requires = (lambda old: lambda a, h: old(a, h) + [("receivelock-held", h.holds(G(h, a.gateway, "_receivelock")))])(c.requires)
 
     # ---- from_io / IO closing (C08 decides from_io; OS contract for closing) ------------------------------------------
     def hdr(u):
